@@ -414,8 +414,9 @@ def run(ck):
         why = 'ObserveProperty arm not found'
         if arm is not None:
             sp = {b['hid']: slot_path(arm['pat'], b['hid']) for b in H.pat_bindings(arm['pat'])}
-            lets = {b['bind']['name']: b for b in H.binding_sites(wst).values() if b['kind'] == 'let' and any(x is b['node'] for x in walk(arm['body']))}
-            obs, snd = lets.get('observer'), lets.get('sender')
+            lets = [b for b in H.binding_sites(wst).values() if b['kind'] == 'let' and any(x is b['node'] for x in walk(arm['body']))]
+            obs = next((b for b in lets if any(c.get('m') == 'format_property_observer_ref' for c in H.calls_in(b['node'].get('init', {'k': 'x'})))), None)
+            snd = next((b for b in lets if any(c.get('m') == 'format_local_ref' for c in H.calls_in(b['node'].get('init', {'k': 'x'})))), None)
 
             def from_slot(e, want, via):
                 return any(c.get('m') == via or H.is_call_to(c, via) for c in H.calls_in(e)) and any(sp.get(x.get('hid')) == want for x in walk(e) if x.get('k') == 'Path' and x.get('res') == 'local')
@@ -431,7 +432,8 @@ def run(ck):
                 mm = re.search(r'\{(\d)\}\.connection = QObject::connect\(\{(\d)\}, \{(\d)\}, [^,]+, update\)', t)
 
                 def root_name(i, s=con):
-                    return (H.root_local(s['args'][i][1]) or {}).get('name')
+                    h = (H.root_local(s['args'][i][1]) or {}).get('hid')
+                    return 'observer' if h == obs['bind']['hid'] else 'sender' if h == snd['bind']['hid'] else '?'
                 ok = mm is not None and root_name(int(mm.group(1))) == 'observer' and root_name(int(mm.group(2))) == 'sender' and from_slot(con['args'][int(mm.group(3))][1], (2,), 'format_signal_pointer')
                 why = 'observer.connection = QObject::connect(sender, <this statement\'s signal>, root, update); observer.object = sender; guarded by connection/object comparison'
                 if ok:
@@ -443,7 +445,8 @@ def run(ck):
     if wf is not None:
         sites = H.format_sites_in_fn(wf)
         up = next((s for s in sites if 'const auto update = ' in H.fmt_text(s)), None)
-        ok = up is not None and (H.root_local(up['args'][0][1]) or {}).get('name') == 'update_function_name' and \
+        upb = H.binding_sites(wf).get((H.root_local(up['args'][0][1]) or {}).get('hid')) if up is not None else None
+        ok = up is not None and upb is not None and upb['kind'] == 'param' and 'str' in (wf['inputs'][upb['index']] if upb['index'] < len(wf['inputs']) else '') and \
             any(a.get('k') == 'If' and 'property_observer_count' in pp(a['c']) for a in H.ancestors(wf, up['node']))
         ck.ob('R2.6', 'observer-update-lambda-is-the-binding-update', ok, L.loc(up['node']) if up else L.loc(wf['body']), '`update` = [this]{ this-><update function of the owning binding>(); }, defined whenever the body has observers')
     wv = bf('CxxBinding::write_value_function')
@@ -488,18 +491,20 @@ def run(ck):
         ck.ob('R2.7', 'none-iff-no-notify-name', 'self.notify_signal_name().map(' in t and 'find_notify_signal' in t and 'filter' not in t and 'and_then' not in t, L.loc(ns['body']),
               'notify_signal() is None exactly when the metatype has no NOTIFY entry; a named but unresolvable signal is an Err')
         gp = next((c for c in H.calls_in(fnz['body']) if c.get('m') == 'get_public_method'), None)
-        ok = gp is not None and 'object_class' in pp(gp['recv']) and (H.root_local(gp['args'][0]) or {}).get('name') == 'name'
+        ok = gp is not None and 'object_class' in pp(gp['recv']) and (H.binding_sites(fnz).get((H.root_local(gp['args'][0]) or {}).get('hid')) or {}).get('kind') == 'param'
         ck.ob('R2.7', 'signal-looked-up-on-property-class', ok, L.loc(gp) if gp else L.loc(fnz['body']), 'self.object_class.get_public_method(<notify name>) (walks base classes: C17)')
         flt = next((c for c in H.calls_in(fnz['body']) if c.get('m') == 'filter'), None)
         ok = flt is not None and 'MethodKind::Signal' in pp(flt['args'][0]) and 'kind()' in pp(flt['args'][0]) and ' Eq ' in pp(flt['args'][0]) or (flt is not None and '==' in pp(flt['args'][0]))
         ck.ob('R2.7', 'only-signals-qualify', bool(ok), L.loc(flt) if flt else L.loc(fnz['body']), 'candidates are filtered to MethodKind::Signal')
-        asg = [n for n in walk(fnz['body']) if n.get('k') == 'Assign' and (H.root_local(n['l']) or {}).get('name') == 'best']
+        rets = list(H.return_exprs(fnz['body']))
+        fin = next((r for r in rets if r.get('k') == 'MCall' and r.get('m') == 'ok_or_else'), None)
+        best = (H.root_local(fin['recv']) or {}).get('hid') if fin is not None else None
+        asg = [n for n in walk(fnz['body']) if n.get('k') == 'Assign' and best is not None and (H.root_local(n['l']) or {}).get('hid') == best]
         ok = len(asg) == 1
         if ok:
             iff = next((a for a in H.ancestors(fnz, asg[0]) if a.get('k') == 'If'), None)
             c = pp(iff['c'], maxlen=200) if iff else ''
             ok = iff is not None and 'arguments_len()' in c and 'argument_type(0)' in c and 'value_type()' in c
         ck.ob('R2.7', 'signal-carries-nothing-or-the-value', ok, L.loc(asg[0]) if asg else L.loc(fnz['body']), 'a candidate is taken only if it has no argument or its first argument has the property\'s value type')
-        rets = list(H.return_exprs(fnz['body']))
-        ok = any(r.get('k') == 'MCall' and r.get('m') == 'ok_or_else' and (H.root_local(r['recv']) or {}).get('name') == 'best' for r in rets)
+        ok = fin is not None and best is not None
         ck.ob('R2.7', 'no-candidate-is-an-error', ok, L.loc(rets[-1]) if rets else L.loc(fnz['body']), 'best.ok_or_else(InvalidNotifySignal)')
